@@ -47,9 +47,16 @@ def main():
             res["confirmed"] = bool(res["patch_applies"] and "72 passed" in res["tests"] and r0.returncode == 0 and r1.returncode == 0
                                     and r0.stdout == r1.stdout)
         res["checks"] = {}
+        # a private copy of the Coq development and a private build directory: no lock shared with runs on /repo
+        priv = "--shared" not in sys.argv
+        envp = ""
+        if priv:
+            shutil.copytree(os.path.join(V, "coq"), os.path.join(tmp, "coq"), symlinks=True)
+            os.makedirs(os.path.join(tmp, "build"))
+            envp = "KA_COQ_DIR=%s KA_BUILD_DIR=%s " % (os.path.join(tmp, "coq"), os.path.join(tmp, "build"))
         for p in props:
             t0 = time.time()
-            c = sh("cd %s && KA_REPO=%s ./check %s --tier %s" % (V, repo, p, tier))
+            c = sh("cd %s && %sKA_REPO=%s ./check %s --tier %s" % (V, envp, repo, p, tier))
             lines = [l for l in c.stdout.splitlines() if l.startswith("VIOLATION") or l.startswith("  ->")]
             res["checks"][p] = dict(exit=c.returncode, detected=c.returncode == 1 and any(l.startswith("VIOLATION") for l in lines),
                                     no_failing_input_only=all("no-failing-input-found" in l for l in lines if l.startswith("VIOLATION")) if lines else None,
@@ -57,8 +64,8 @@ def main():
     finally:
         sh("git -C /repo worktree remove --force %s" % os.path.join(tmp, "repo"))
         shutil.rmtree(tmp, ignore_errors=True)
-        # restore coq/Gen to /repo's tables
-        sh("cd %s && /venv/bin/python harness/translate.py" % V)
+        if "--shared" in sys.argv:      # restore coq/Gen to /repo's tables
+            sh("cd %s && /venv/bin/python harness/translate.py" % V)
     print(json.dumps(res, indent=1))
 
 
